@@ -366,18 +366,18 @@ Definition rel_safe (st : state) (s : sess) : Prop :=
   ORelSafe r FD (s_bd s) (s_id s) /\ prov_safe r (st_prov st) (s_mac s) (s_id s) /\
   prov6_safe r (p6 (st_prov st)) (s_mac s) (s_id s).
 
-Lemma step_rel_shape v st s ir :
-  step_rel v st s ir =
+Lemma step_rel_shape v st s ir r6 :
+  step_rel v st s ir r6 =
   bindl (rel_item v F4 (oitem (s_b4 s)) (s_vrf s) (s_id s) (st_reg st)) (fun r1 =>
     let '(pr', r2) := if ir then prov_release v (st_prov st) r1 (s_mac s) (s_id s) else (st_prov st, r1) in
     bindl (rel_item v F6 (oitem (s_b6 s)) (s_vrf s) (s_id s) r2) (fun r3 =>
       map (fun r4 =>
-             let '(q', r5) := if ir && s_ipcp s then prov6_release v (p6 pr') r4 (s_mac s) (s_id s) else (p6 pr', r4) in
+             let '(q', r5) := if r6 then prov6_release v (p6 pr') r4 (s_mac s) (s_id s) else (p6 pr', r4) in
              (mkState r5 (put_sess (set_live s false) (st_sess st)) (unckpt (with_p6 pr' q') (s_id s)), ORel ir))
           (rel_item v FD (s_bd s) (s_vrf s) (s_id s) r3))).
 Proof. unfold step_rel, rel_item. destruct (s_b4 s), (s_b6 s); reflexivity. Qed.
 
-Lemma step_rel_eq st s ir : rel_safe st s -> step_rel Head st s ir = step_rel Repaired st s ir.
+Lemma step_rel_eq st s ir r6 : rel_safe st s -> step_rel Head st s ir r6 = step_rel Repaired st s ir r6.
 Proof.
   intros (Hst & R4 & R6 & RD & P4 & P6). rewrite !step_rel_shape.
   rewrite (rel_item_eq _ _ _ _ _ Hst R4). apply bindl_ext_in. intros r1 H1.
@@ -397,7 +397,7 @@ Proof.
   pose proof (sub_statics _ _ S03 Hst) as Hst3.
   rewrite (rel_item_eq _ _ _ _ _ Hst3 (ORelSafe_sub _ _ _ _ _ S03 RD)). apply map_ext_in. intros r4 H4.
   pose proof (rel_item_sub _ _ _ _ _ _ Hst3 H4) as S4. pose proof (sub_trans _ _ _ S03 S4) as S04.
-  destruct (ir && s_ipcp s); [|reflexivity].
+  destruct r6; [|reflexivity].
   rewrite Ep6. rewrite (prov6_release_eq _ _ _ _ (prov6_safe_sub _ _ _ _ _ S04 P6)). reflexivity.
 Qed.
 
@@ -550,7 +550,7 @@ Definition safe_step (st : state) (o : op) : bool :=
       | Some s => if negb (s_ppp s) && s_live s then is_safeb st (mark_duid isreq (is_ctx s vrf s6 spd o6 od)) else true
       | None => true
       end
-  | IR sid | IL sid | IT sid =>
+  | IR sid | IL sid | IT sid | IE sid =>
       match find_sess sid st with
       | Some s => if negb (s_ppp s) && s_live s then rel_safeb_sess st s else true
       | None => true
@@ -588,7 +588,7 @@ Lemma head_step_safe st o :
   reg_ok (st_reg st) -> safe_step st o = true -> step Head st o = step Repaired st o.
 Proof.
   intros Hok. unfold safe_step, step.
-  destruct o as [sid vrf s4 s6 spd o4 o6 od|sid a|sid|isreq bind rq sid vrf s4 o4|isreq sid vrf s6 spd o6 od|sid|sid| |sid|sid|sid|sid vrf s4 o4 s6 spd o6 od];
+  destruct o as [sid vrf s4 s6 spd o4 o6 od|sid a|sid|isreq bind rq sid vrf s4 o4|isreq sid vrf s6 spd o6 od|sid|sid| |sid|sid|sid|sid vrf s4 o4 s6 spd o6 od|sid];
     try discriminate; try reflexivity;
     destruct (find_sess sid st) as [s|]; try reflexivity.
   - destruct (s_ppp s && s_live s); [|reflexivity]. intros H. apply step_pa_eq; [exact Hok|apply pa_safeb_spec; exact H].
@@ -600,6 +600,7 @@ Proof.
   - destruct (negb (s_ppp s) && s_live s); [|reflexivity]. intros H. apply rel_safeb_sess_spec in H.
     destruct (v6bound s); [apply step_rel4p_eq; exact H|apply step_rel_eq; exact H].
   - destruct (negb (s_ppp s) && s_live s); [|reflexivity]. intros H. apply step_rel6_eq. apply rel_safeb_sess_spec; exact H.
+  - destruct (negb (s_ppp s) && s_live s); [|reflexivity]. intros H. apply step_rel_eq. apply rel_safeb_sess_spec; exact H.
   - destruct (negb (s_ppp s) && s_live s); [|reflexivity]. intros H. apply step_rel_eq. apply rel_safeb_sess_spec; exact H.
 Qed.
 
